@@ -27,8 +27,10 @@ type c16Case struct {
 	Threshold int        `json:"threshold"`
 	Batches   [][]outMsg `json:"batches"`
 	// RotateAE: every poll of the session names its own Accept-Encoding (drawn per poll)
-	RotateAE bool   `json:"accept_encoding_differs_per_poll"`
-	Seed     string `json:"seed"`
+	RotateAE bool `json:"accept_encoding_differs_per_poll"`
+	// StrayJ: a session opened as plain polling whose later polls carry a j parameter
+	StrayJ bool   `json:"plain_session_polls_with_j_parameter"`
+	Seed   string `json:"seed"`
 }
 
 var c16AE = []string{"", "gzip", "deflate", "br", "zstd", "gzip, deflate", "br;q=1.0, gzip;q=0.5", "identity", "*", "x-br-custom", "xgzip", "bread, undeflated", "GZIP", "GZip", "DEFLATE;q=0.8", "Br", "ZStd", "gzip;q=0", "compress, zstd"}
@@ -43,6 +45,7 @@ func genC16(rng *rand.Rand) c16Case {
 	c.B64 = rng.IntN(3) == 0 || (c.JSONP && c.Rev == 3)
 	c.AcceptEnc = c16AE[rng.IntN(len(c16AE))]
 	c.RotateAE = rng.IntN(3) == 0
+	c.StrayJ = !c.JSONP && rng.IntN(4) == 0
 	if c.JSONP {
 		c.J = c16J[rng.IntN(len(c16J))]
 		if rng.IntN(12) == 0 {
@@ -144,6 +147,9 @@ func runC16(c c16Case, rng *rand.Rand, r *rep.Report) (key, msg string, stats ma
 						cl.Cfg.AcceptEnc = []string{"gzip", "deflate", "br", "zstd", "", "identity", "GZip", "br;q=1.0, gzip;q=0.5"}[rng.IntN(8)]
 					}
 					aeOf = append(aeOf, cl.Cfg.AcceptEnc)
+					if c.StrayJ {
+						cl.Cfg.Extra = "j=5"
+					}
 					if _, ok := cl.PollStart().WaitFor(5 * time.Second); !ok {
 						key, msg = "c16-poll-not-answered", fmt.Sprintf("a poll with Accept-Encoding %q was not answered within 5 s although a batch was waiting", cl.Cfg.AcceptEnc)
 						return
